@@ -239,6 +239,13 @@ class Report:
             {"domain": domain, "case": case, "model": model, "impl": impl, "key": key, "detail": detail}
         )
 
+    def finding(self, key, case, detail=None):
+        """The property-level checker judged the IMPLEMENTATION's behaviour on `case` a
+        violation of the property (independently of whether the model agrees)."""
+        self.disagreements.append(
+            {"domain": "checker", "case": case, "model": None, "impl": None, "key": key, "detail": detail}
+        )
+
     # ---- final decision
     def finish(self, proof, level_note_trusted, theorem_names):
         os.makedirs(EVIDENCE, exist_ok=True)
